@@ -27,13 +27,16 @@ static std::string cs_of(const vg::EdgeList &el, const std::vector<double> &w, i
 }
 
 // C15: inspect the spanner right after construction
-static void check_spanner(vr::Runner &R, const vg::EdgeList &el, const std::vector<double> &w, B &b, long k, bool verbose) {
+// TBB = the ParallelUsingTBB template argument: the *_tbb entry points instantiate the same class with true, and the
+// property speaks of the spanner of every approximate entry point
+template<bool TBB>
+static void check_spanner_t(vr::Runner &R, const vg::EdgeList &el, const std::vector<double> &w, B &b, long k, bool verbose) {
     typedef parmcb::detail::mcb_sva_signed<Graph, WeightMap, std::back_insert_iterator<vv::CycleList<W>>> Exact;
-    typedef parmcb::detail::BaseApproxSpannerAlgorithm<Graph, WeightMap, Exact, false> Algo;
+    typedef parmcb::detail::BaseApproxSpannerAlgorithm<Graph, WeightMap, Exact, TBB> Algo;
     auto wm = boost::get(boost::edge_weight, b.g);
     auto im = boost::get(boost::vertex_index, b.g);
-    std::string cs = vg::case_string(el, w, "component=spanner;k=" + std::to_string(k));
-    const char *site = "BaseApproxSpannerAlgorithm::construct_spanner";
+    std::string cs = vg::case_string(el, w, std::string(TBB ? "component=spanner_tbb;k=" : "component=spanner;k=") + std::to_string(k));
+    const char *site = TBB ? "BaseApproxSpannerAlgorithm<ParallelUsingTBB>::construct_spanner" : "BaseApproxSpannerAlgorithm::construct_spanner";
     Algo algo(b.g, wm, im, (std::size_t) k);
     R.count(C_SPANNER_EVAL);
     int n = el.n, m = el.m();
@@ -89,6 +92,13 @@ static void check_spanner(vr::Runner &R, const vg::EdgeList &el, const std::vect
         }
     }
     if (verbose) printf("spanner k=%ld retained=%d dropped=%d ok\n", k, (int) std::count(retained.begin(), retained.end(), 1), (int) std::count(dropped.begin(), dropped.end(), 1));
+}
+
+static void check_spanner(vr::Runner &R, const vg::EdgeList &el, const std::vector<double> &w, B &b, long k, bool verbose) {
+    check_spanner_t<false>(R, el, w, b, k, verbose);
+#ifdef PARMCB_HAVE_TBB
+    check_spanner_t<true>(R, el, w, b, k, verbose);
+#endif
 }
 
 // graphs with more than 62 edges: dynamic bitsets and the Horton reference instead of 64-bit masks / all-cycles
